@@ -44,6 +44,6 @@ for h, log, td, t0, p in procs:
     for f in fc[:6]: print('      FAILED:', f)
     for e in errs: print('      ', e[:300])
     if errs:
-        i = t.find('error'); print(t[i:i+1500])
+        i = t.find('error'); print(t[i:i+700])
     shutil.rmtree(td, ignore_errors=True)
 shutil.rmtree(ov, ignore_errors=True)
